@@ -16,7 +16,7 @@ Replays run without the shims on the unmodified code with concrete floats.
 from symx.obligation import Obligation
 from props.engine_common import engine_rig
 
-FACT = {"s": 1, "min": 60, "h": 3600}
+FACT = {"s": 1, "min": 60, "h": 3600, "L": 1, "mL": 0.001, "CV": 1}
 TEMPLATES = {
     "root": "Mark: M1\n1.0 Mark: M2\nMark: M3\n",
     "block": "Mark: M0\nBlock: B1\n    Mark: M1\n    1.0 Mark: M2\n    End block\nMark: M3\n",
@@ -55,11 +55,11 @@ class _Shims:
             return self
         import openpectus.lang.exec.pinterpreter as pi
         import openpectus.lang.exec.units as real_units
-        from openpectus.lang.exec.tags_impl import BlockTimeTag, ScopeTimeTag
+        from openpectus.lang.exec.tags_impl import BlockTimeTag, ScopeTimeTag, AccumulatorTag, AccumulatorBlockTag, AccumulatedColumnVolume
         from crosshair.libimpl.builtinslib import SymbolicValue
         from crosshair.tracers import NoTracing
         self.pi, self.orig_units = pi, pi.units
-        self.classes = (BlockTimeTag, ScopeTimeTag)
+        self.classes = (BlockTimeTag, ScopeTimeTag, AccumulatorTag, AccumulatorBlockTag, AccumulatedColumnVolume)
         self.orig_get = {c: c.get_value for c in self.classes}
         self.orig_await = pi.PInterpreter._is_awaiting_threshold
         flag = {"in": 0}
@@ -177,6 +177,52 @@ def harness_threshold(sym):
         sym.note("template", [t, base])
 
 
+def harness_volume(sym):
+    """Threshold in a volume / CV base unit: the clock is the accumulator registered for that unit (Accumulated Volume / CV at
+    the root, Block Volume / CV inside a block), fed by a totalizer register whose increments are solver variables."""
+    t = sym.shard["template"]
+    base = sym.shard["base"]
+    pc = f"Base: {base}\n" + TEMPLATES[t]
+    per_l = {"L": 1.0, "mL": 1000.0, "CV": 0.5}[base]          # clock units per litre of totalizer (column volume = 2 L)
+    T = sym.real("T", 0.0, 1.2 * per_l)
+    clock_name = {("L", False): "Accumulated Volume", ("L", True): "Block Volume", ("mL", False): "Accumulated Volume", ("mL", True): "Block Volume",
+                  ("CV", False): "Accumulated CV", ("CV", True): "Block CV"}[(base, t != "root")]
+    unit_factor = {"L": 1.0, "mL": 1000.0, "CV": 1.0}[base]    # threshold units per clock-tag unit (the volume tags are in L)
+    with _Shims(sym) as shims, engine_rig(sym, pc, accumulators=True) as rig:
+        e = rig.engine
+        node = [n for n in e.method_manager.program.get_all_nodes() if getattr(n, "threshold", None) is not None][0]
+        node.threshold = shims.wrap(T)
+        rig.user("Start")
+        marks, clocks, states = [], [], []
+        tot = 0.0
+        for i in range(N):
+            tot = tot + sym.real(f"v{i}", 0.0, 0.2, lo_strict=True)
+            e.uod.hwl.mem["Tot"] = tot
+            rig.tick(0.1)
+            sym.check(not rig.tick_errors, "tick-raised", lambda: f"Engine.tick raised {rig.tick_errors[:1]}")
+            sym.check(not e.has_error_state(), "method-error", lambda: f"{t}/{base}: method error {getattr(e.get_error_state_exception(), 'message', e.get_error_state_exception())}")
+            marks.append(rig.marks())
+            clocks.append(rig.tag(clock_name) * unit_factor)
+            states.append(rig.system_state)
+        p = _marks_tick(marks, "M1")
+        s = _marks_tick(marks, "M2")
+        sym.reach()
+        if p is None:
+            return
+        if s is not None:
+            sym.check(clocks[s] >= T, f"started-before-threshold|scope={t}|base={base}",
+                      lambda: f"{t}/{base}: M2 (threshold {sym.realize(T)} {base}) ran at tick {s} when {clock_name} was {sym.realize(clocks[s])} {base}")
+        j = None
+        for i in range(p, N):
+            if clocks[i] >= T:
+                j = i
+                break
+        if j is not None and j + 3 < N:
+            sym.check(s is not None and s <= j + 3, f"started-late|scope={t}|base={base}",
+                      lambda: f"{t}/{base}: {clock_name} reached the threshold {sym.realize(T)} {base} at tick {j} (M1 at {p}) but M2 ran at {s}")
+        sym.note("template", [t, base])
+
+
 def harness_wait(sym):
     w = sym.shard["wait"]
     text, d = WAITS[w]
@@ -273,7 +319,16 @@ OBLIGATIONS = [
                        "thorough": "Base {s, min, h}, hold window at ticks 3..6"},
                assumptions=["floats modelled as reals", "units.compare_values replaced for solver-valued operands by the exact comparison with factors s=1, min=60, h=3600 (its exactness is property C21); str() of a solver value inside pinterpreter returns an opaque token",
                             "one-tick tolerance: the clock is read after the tick in which the instruction ran; 'not late' allows two ticks of pipeline latency after the clock reached T",
-                            "volume/CV accumulators as threshold clocks are not exercised", "fake hardware; log statements removed at import"]),
+                            "volume/CV accumulators as threshold clocks: obligation volume_threshold", "fake hardware; log statements removed at import"]),
+    Obligation(name="volume_threshold", kind="crosshair", harness=harness_volume, cpu_budget={"quick": 300.0, "thorough": 1800.0},
+               shards=lambda tier: [{"template": t, "base": b} for t in (("root", "block") if tier == "quick" else TEMPLATES) for b in (("L", "CV") if tier == "quick" else ("L", "mL", "CV"))],
+               encoded=["openpectus.lang.exec.pinterpreter:PInterpreter._is_awaiting_threshold", "openpectus.lang.exec.tags_impl:AccumulatorTag.on_tick",
+                        "openpectus.lang.exec.tags_impl:AccumulatorBlockTag", "openpectus.lang.exec.tags_impl:AccumulatedColumnVolume", "openpectus.lang.exec.uod:UodBuilder.with_accumulated_volume"],
+               symbolic="threshold T (real, up to 1.2 L equivalent in the base unit), the totalizer increment of every tick (real in (0, 0.2] L)",
+               bounds={"quick": "scopes root and block x Base {L, CV}, 18 ticks", "thorough": "3 scopes x Base {L, mL, CV}"},
+               assumptions=["UOD with a totalizer register (L) and a constant 2 L column volume registered through with_accumulated_volume / with_accumulated_cv",
+                            "floats modelled as reals; compare_values replaced for solver-valued operands by the exact comparison with factors L=1, mL=0.001, CV=1 (C21)",
+                            "same tolerances as obligation threshold"]),
     Obligation(name="wait", kind="crosshair", harness=harness_wait, shards=lambda tier: [{"wait": w} for w in WAITS],
                cpu_budget={"quick": 300.0, "thorough": 1200.0},
                encoded=["openpectus.lang.exec.pinterpreter:PInterpreter.visit_InterpreterCommandNode", "openpectus.lang.exec.regex:get_duration_end"],
